@@ -69,14 +69,78 @@ def cli_leg(res, tier):
         shutil.rmtree(work, ignore_errors=True)
 
 
+DROPS = re.compile(rb"drop_sysline\(\)\s*:\s*Ok\s*(\d+),\s*Err\s*(\d+)")
+
+
+def sched_leg(res, tier):
+    """The coordinator (printing thread) under controlled canonical schedules: it lags as far behind the file's worker
+    as the bounded channel allows (workers-first), stays as close as possible (main-first), or the running thread keeps
+    running (sticky). The marks of the whole program must not grow with the file size under any of them."""
+    import sched
+    work = common.scratch_dir(PROP + "s")
+    try:
+        bsz = 512
+        sizes = [150, 600] if tier == "quick" else [150, 600, 2400]
+        # line length relative to the block size: several messages per block ... a message longer than a block
+        lens = [60, 180, 300, 450, 800] if tier == "quick" else [60, 120, 180, 240, 300, 380, 450, 520, 800, 1300]
+        pols = ["main-first", "workers-first", "sticky"]
+        items = []
+        for ll in lens:
+            for n in sizes:
+                fn = "l%d_n%d.log" % (ll, n)
+                data = gen.text_log([(E * 1000 + i * 1000, b"x" * (ll - 34) + b" %06d" % i) for i in range(n)])
+                common.write_file(os.path.join(work, fn), data)
+                aligned = sum(1 for b in range(len(data) // bsz) if data[(b + 1) * bsz - 1] == 0x0A)
+                for pol in pols:
+                    items.append((ll, n, fn, pol, aligned))
+
+        def one(it):
+            ll, n, fn, pol, aligned = it
+            cfg = sched.Config("c17", work, ["--color", "never", "-s", "-t", "+00:00", "--blocksz", str(bsz), fn], [fn], step_limit=5000000, exec_timeout=600)
+            return it, cfg.run([], policy=pol)
+        got = {}
+        for (ll, n, fn, pol, aligned), x in common.pmap(one, items):
+            res.count()
+            res.distinct(("sched", ll, n, pol))
+            oc = x.trace.get("outcome") if x.trace else "no-trace"
+            marks = {k.decode(): int(v) for k, v in HIGH.findall(x.err)}
+            d = DROPS.search(x.err)
+            if oc != "completed" or len(marks) < 3:
+                res.violation({"level": "sched", "symptom": "run-failed", "policy": pol}, "line length %d, %d messages, %s: outcome %s marks %s" % (ll, n, pol, oc, marks),
+                              {"engine": "E-SCHED", "line_len": ll, "messages": n, "policy": pol, "blocksz": bsz})
+                continue
+            got[(ll, n, pol)] = (marks, int(d.group(2)) if d else 0, aligned)
+        for ll in lens:
+            for pol in pols:
+                if (ll, sizes[0], pol) not in got:
+                    continue
+                b0, e0, _ = got[(ll, sizes[0], pol)]
+                for n in sizes[1:]:
+                    if (ll, n, pol) not in got:
+                        continue
+                    m, e, aligned = got[(ll, n, pol)]
+                    for k in ("blocks high", "lines high", "syslines high"):
+                        allow = 2 * b0[k] + 16 + (aligned if k == "blocks high" else 0)
+                        if m[k] > allow:
+                            res.violation({"level": "sched", "symptom": "grows", "mark": k.split()[0], "policy": pol, "container": "plain",
+                                           "failed_drops_grow_with_size": e > e0 + 8, "explained_by_blocks_ending_in_newline": False},
+                                          "s4v under policy %s, %d-byte lines at --blocksz %d: `%s` is %d for %d messages, %d for %d messages (failed drop_sysline %d -> %d)" % (
+                                              pol, ll, bsz, k, b0[k], sizes[0], m[k], n, e0, e),
+                                          {"engine": "E-SCHED", "line_len": ll, "messages": n, "policy": pol, "blocksz": bsz})
+        res.coverage["sched_leg_runs"] = len(items)
+    finally:
+        shutil.rmtree(work, ignore_errors=True)
+
+
 def run(tier, seed, build=True):
     if build:
-        common.build_harness(("seqx",))
+        common.build_harness(("seqx", "s4v"))
         common.build_real()
     res = common.Result(PROP, tier, "exploration", seed)
     s = seqxdrv.run_sub(res, "c17", tier)
     seqxdrv.merge_summary(res, s)
     cli_leg(res, tier)
+    sched_leg(res, tier)
     res.assumptions += ["in-process runs release a message as soon as the next one is delivered (the real binary may hold up to a channel's worth longer: the E-CLI leg allows 4x the smallest size's mark + 64)"]
     return res.finish()
 
